@@ -67,8 +67,10 @@ Print Assumptions C19_reachable_heap_is_seq.
 Theorem C19_checker_is_spec : forall w, c19_run w = c19_spec w.
 Proof.
   intros w. unfold c19_run, c19_spec. destruct (decode w) as [[[k v] ops]|]; [|reflexivity].
-  rewrite <- history_refines_spec. rewrite flat_map_concat_map, map_map, <- flat_map_concat_map.
-  apply flat_map_ext. intros [r vs fl| |]; try reflexivity.
+  rewrite <- history_refines_spec.
+  induction (run_model k v ops) as [|o os IH]; [reflexivity|].
+  cbn [flat_map map]. rewrite IH. f_equal.
+  destruct o as [r vs fl| |]; try reflexivity.
   destruct r; try reflexivity. cbn. destruct (k0 =? 0); reflexivity.
 Qed.
 Print Assumptions C19_checker_is_spec.
